@@ -183,6 +183,10 @@ class AirTouchSocket(Generic[comms.Hdr]):
             for task in list(self._background_tasks):
                 if task is not current_task:
                     task.cancel()
+            # Messages that are still waiting for a connection belong to the
+            # session that is being closed. They must not be sent if the socket
+            # is opened again later.
+            self._message_queue.clear()
             await self._disconnect()
 
     async def send(self, message: comms.Message, retry_policy: RetryPolicy) -> None:
